@@ -127,6 +127,7 @@ func registerNumStubs(e *Engine) {
 	e.reg("math/bits.Len", lenN(64))
 
 	registerBigFloatStubs(e)
+	registerDecimalStubs(e)
 
 	// logging.PackageLogger returns (*zap.Logger, Tracer)
 	tracerT := newEngType("engTracer", types.NewPointer(types.Typ[types.Int]), map[string]engMethod{
